@@ -106,6 +106,9 @@ impl C19 {
         if c.via_grl {
             st.count("cases_built_from_grl_text");
         }
+        if c.decoy_panics {
+            st.count("cases_whose_engine_first_ran_a_call_in_which_a_worker_panicked");
+        }
         if !c.flat_decoys.is_empty() {
             st.count("cases_with_flat_facts_named_like_a_dotted_path(other value than the object field)");
         }
@@ -176,7 +179,12 @@ impl C19 {
                 let n = 1 + rng.below(24);
                 let max_threads = 1 + rng.below(16);
                 let min_rules = 1 + rng.below(4);
-                let c = gen_case(rng, n, max_threads, min_rules, schedules, true, false);
+                let c = if rng.chance(1, 20) {
+                    st.count("wide_configurations(65..=200 rules on 1-2 levels, max_threads 32..=256)");
+                    gen_wide_case(rng, 2)
+                } else {
+                    gen_case(rng, n, max_threads, min_rules, schedules, true, false)
+                };
                 if Self::check_one(&c, st, slot, &mut my_orders, &mut reported) {
                     break;
                 }
